@@ -104,6 +104,12 @@ func VerifH05a() {
 		}
 	}
 	conn := vNewConn(nil)
+	// the transport may reject the write: a row (or a completion) that did not
+	// reach the client was not delivered
+	transportDown := nondetBool()
+	if transportDown {
+		conn.failWriteAt = 0
+	}
 	w := buffer.NewWriter(slog.Default(), conn)
 	rd := buffer.NewReader(slog.Default(), conn, 64)
 	preClosed := nondetBool()
@@ -131,6 +137,10 @@ func VerifH05a() {
 			vAssert("row-on-closed-fails", err != nil)
 			vAssert("row-on-closed-emits-nothing", len(conn.out) == 0)
 			vAssert("row-on-closed-counter", dw.Written() == preWritten)
+		case op == 0 && transportDown:
+			vAssert("undelivered-row-is-error", err != nil)
+			vAssert("undelivered-row-not-counted", dw.Written() == preWritten)
+			vReach("row-write-failed")
 		case op == 0:
 			vAssert("row-ok", err == nil)
 			vAssert("row-emits-one-datarow", vTypes(conn.out) == "D" && vWireOK(conn.out))
@@ -145,10 +155,23 @@ func VerifH05a() {
 		vAssert("row-does-not-close", dw.closed == preClosed)
 	case 3: // Complete
 		tag := vSymText(2)
+		if nondetBool() {
+			// a long command tag: lengths around 64, 128, 256 and 4096
+			n := vLongLens[vChoose(len(vLongLens))]
+			tag = make([]byte, n)
+			for i := range tag {
+				tag[i] = 't'
+			}
+			tag[n-1] = nondetByte()
+			vAssume(tag[n-1] != 0)
+			vReach("long-command-tag")
+		}
 		err := dw.Complete(string(tag))
 		if preClosed {
 			vAssert("complete-on-closed-fails", err != nil)
 			vAssert("complete-on-closed-emits-nothing", len(conn.out) == 0)
+		} else if transportDown {
+			vAssert("undelivered-completion-is-error", err != nil)
 		} else {
 			vAssert("complete-ok", err == nil)
 			msgs, ok := vFrames(conn.out)
@@ -176,6 +199,8 @@ func VerifH05a() {
 		if preClosed || nc == 0 {
 			vAssert("copyin-rejected", err != nil && cr == nil)
 			vAssert("copyin-rejected-emits-nothing", len(conn.out) == 0)
+		} else if transportDown {
+			vAssert("undelivered-copy-in-response-is-error", err != nil && cr == nil)
 		} else {
 			vAssert("copyin-ok", err == nil && cr != nil)
 			msgs, ok := vFrames(conn.out)
